@@ -7,16 +7,6 @@ field was clamped, `C01_size_covers_present_fields`) which is not carried out he
 import Emboss.Lemmas.ViewMono2
 namespace Emboss.View
 
-def fieldNoArray (f : Field) : Bool :=
-  match f.kind with
-  | .phys _ _ (.array _ _) _ => false
-  | _ => true
-
-def moduleNoArrays (m : Module) : Bool :=
-  m.structs.all (fun sd => sd.fields.all fieldNoArray)
-
-def structNoArrays (sd : StructDef) : Bool := sd.fields.all fieldNoArray
-
 theorem find_noarr {m : Module} (hm : moduleNoArrays m = true) {name : String} {sd : StructDef}
     (h : m.find name = some sd) : structNoArrays sd = true := by
   unfold moduleNoArrays at hm
